@@ -10,6 +10,13 @@
 //!            retry (create2 only: the same CREATE2 twice in one transaction, init code INVALID; the
 //!            reply is about the second attempt and requires the first to have ended the same way).
 //!            tx takes cold / al / alkey / alkey0 only; an access list before Berlin is `evm-error`.
+//!   a 10th token (after warmth `cold`) = history of the target WITHIN this transaction:
+//!            untouched | created (create2: the same CREATE2 ran before in this transaction, succeeded and deployed
+//!            code `00`; still alive) | destroyed (create2: … deployed `CALLER SELFDESTRUCT` and was then called) |
+//!            funded (create / create2: BALANCE of the target, then a CALL sending it 1 wei) | hsonly (the database
+//!            answers basic = None but has_storage = true for the target; tokens must be `0 0 1 0`).
+//!            created / destroyed reply `other:first-<class>` when the earlier creation did not succeed. For these
+//!            lines `allgas` is measured by the inspector: the creator frame got no gas back from the create.
 //!   layer = direct (generated map db, has_storage implemented) | wrapref | box | mutref | components
 //!           | cache (CacheDB over the map db) | state (State over it) | statecache (State over CacheDB over it)
 //!           | inserted (InMemoryDB with insert_account_info / insert_account_storage)
@@ -21,7 +28,7 @@
 use crate::c20::MapDb;
 use crate::*;
 use revm::db::{CacheDB, InMemoryDB, WrapDatabaseRef};
-use revm::interpreter::{CreateInputs, CreateOutcome, InstructionResult};
+use revm::interpreter::{CreateInputs, CreateOutcome, InstructionResult, Interpreter};
 use revm::primitives::db::DatabaseComponents;
 use revm::primitives::{
     keccak256, AccessListItem, AccountInfo, Address, Bytecode, Bytes, ExecutionResult, SpecId, TxKind, B256, KECCAK_EMPTY,
@@ -327,12 +334,273 @@ fn run_layer(layer: &str, kind: &str, init: u8, warmth: &str, spec: SpecId, pre:
     }
 }
 
+
+// ------------------------------------------------------------------ history of the target within the transaction
+
+pub const HISTORIES: &[&str] = &["untouched", "created", "destroyed", "funded", "hsonly"];
+const GAS_LIMIT_HIST: u64 = 10_000_000;
+
+/// records every create_end and, for each CREATE / CREATE2 executed, how much gas came back to the
+/// frame that executed it (remaining at its next step minus remaining right after the opcode)
+#[derive(Default)]
+struct RecH {
+    results: Vec<InstructionResult>,
+    returned: Vec<u64>,
+    cur_op: u8,
+    pending: Vec<(u64, u64)>,
+}
+impl<DB: Database> Inspector<DB> for RecH {
+    fn step(&mut self, interp: &mut Interpreter, c: &mut EvmContext<DB>) {
+        let d = c.journaled_state.depth() as u64;
+        if let Some((pd, rem)) = self.pending.last().copied() {
+            if pd == d {
+                self.pending.pop();
+                self.returned.push(interp.gas.remaining().saturating_sub(rem));
+            }
+        }
+        self.cur_op = interp.current_opcode();
+    }
+    fn step_end(&mut self, interp: &mut Interpreter, c: &mut EvmContext<DB>) {
+        if (self.cur_op == 0xf0 || self.cur_op == 0xf5) && interp.instruction_result == InstructionResult::CallOrCreate {
+            self.pending.push((c.journaled_state.depth() as u64, interp.gas.remaining()));
+        }
+    }
+    fn create_end(&mut self, _c: &mut EvmContext<DB>, _i: &CreateInputs, outcome: CreateOutcome) -> CreateOutcome {
+        self.results.push(outcome.result.result);
+        outcome
+    }
+}
+
+/// (init code, runtime code it deploys)
+fn hist_init(hist: &str) -> (Vec<u8>, Vec<u8>) {
+    match hist {
+        // MSTORE8(0, 0x00); RETURN(0, 1)
+        "created" => (vec![0x60, 0x00, 0x60, 0x00, 0x53, 0x60, 0x01, 0x60, 0x00, 0xf3], vec![0x00]),
+        // MSTORE(0, 0x33ff); RETURN(30, 2)      runtime: CALLER SELFDESTRUCT
+        "destroyed" => (vec![0x61, 0x33, 0xff, 0x60, 0x00, 0x52, 0x60, 0x02, 0x60, 0x1e, 0xf3], vec![0x33, 0xff]),
+        _ => (vec![0x00], vec![]),
+    }
+}
+fn hist_target(kind: &str, hist: &str) -> Address {
+    match kind {
+        "tx" => caller().create(0),
+        "create" => creator().create(1),
+        _ => creator().create2(B256::from(U256::from(SALT)).0, keccak256(hist_init(hist).0)),
+    }
+}
+/// CALL(gas, to, value, no data); POP
+fn call_seq_gv(to: Address, gas: u16, value: u8) -> Vec<u8> {
+    let mut c = vec![0x60, 0x00, 0x60, 0x00, 0x60, 0x00, 0x60, 0x00, 0x60, value, 0x73];
+    c.extend(to.as_slice());
+    c.extend([0x61, (gas >> 8) as u8, gas as u8, 0xf1, 0x50]);
+    c
+}
+fn hist_creator_code(kind: &str, hist: &str) -> Vec<u8> {
+    let (init, _) = hist_init(hist);
+    let target = hist_target(kind, hist);
+    let n = init.len() as u8;
+    // the init code right-aligned in memory word 0
+    let mut c = vec![0x5f + n];
+    c.extend(&init);
+    c.extend([0x60, 0x00, 0x52]);
+    let create = |c: &mut Vec<u8>| {
+        if kind == "create2" {
+            c.extend([0x60, SALT]);
+        }
+        c.extend([0x60, n, 0x60, 32 - n, 0x60, 0x01]);
+        c.push(if kind == "create2" { 0xf5 } else { 0xf0 });
+    };
+    match hist {
+        "funded" => {
+            c.push(0x73);
+            c.extend(target.as_slice());
+            c.extend([0x31, 0x50]);
+            c.extend(call_seq_gv(target, 10000, 1));
+        }
+        "created" => {
+            create(&mut c);
+            c.push(0x50);
+        }
+        "destroyed" => {
+            create(&mut c);
+            c.push(0x50);
+            c.extend(call_seq_gv(target, 50000, 0));
+        }
+        _ => {}
+    }
+    create(&mut c);
+    c.extend([0x60, 0x00, 0x55, 0x00]);
+    c
+}
+fn hist_accounts(kind: &str, hist: &str) -> Vec<(Address, AccountInfo)> {
+    let mut v = vec![(caller(), AccountInfo { balance: U256::from(1u64 << 60), ..Default::default() })];
+    if kind != "tx" {
+        let code = hist_creator_code(kind, hist);
+        v.push((
+            creator(),
+            AccountInfo {
+                balance: U256::from(10),
+                nonce: 1,
+                code_hash: keccak256(&code),
+                code: Some(Bytecode::new_legacy(Bytes::from(code))),
+            },
+        ));
+    }
+    v
+}
+
+fn run_hist<DB: Database>(db: DB, kind: &str, hist: &str, spec: SpecId, pre: Pre) -> String {
+    let target = hist_target(kind, hist);
+    let (init, runtime) = hist_init(hist);
+    let mut evm = Evm::builder()
+        .with_db(db)
+        .with_external_context(RecH::default())
+        .with_spec_id(spec)
+        .append_handler_register(inspector_handle_register)
+        .modify_tx_env(|tx| {
+            tx.caller = caller();
+            tx.gas_limit = GAS_LIMIT_HIST;
+            if kind == "tx" {
+                tx.transact_to = TxKind::Create;
+                tx.data = Bytes::from(init.clone());
+                tx.value = U256::from(1);
+            } else {
+                tx.transact_to = TxKind::Call(creator());
+            }
+        })
+        .build();
+    let rs = match evm.transact() {
+        Ok(rs) => rs,
+        Err(_) => return "evm-error".into(),
+    };
+    let (gas_used, success) = match &rs.result {
+        ExecutionResult::Success { gas_used, .. } => (*gas_used, true),
+        ExecutionResult::Revert { gas_used, .. } => (*gas_used, false),
+        ExecutionResult::Halt { gas_used, .. } => (*gas_used, false),
+    };
+    let rec = &evm.context.external;
+    let class_of = |r: &InstructionResult| match r {
+        InstructionResult::CreateCollision => "collision".to_string(),
+        InstructionResult::Return | InstructionResult::Stop => "created".to_string(),
+        r => format!("other:{:?}", r),
+    };
+    let two = hist == "created" || hist == "destroyed";
+    let class = match (two, rec.results.as_slice()) {
+        (true, [first, second]) => {
+            if class_of(first) != "created" {
+                return format!("other:first-{}", class_of(first));
+            }
+            class_of(second)
+        }
+        (false, [r]) => class_of(r),
+        (_, l) => return format!("other:{}-create-ends", l.len()),
+    };
+    let allgas = if kind == "tx" {
+        gas_used == GAS_LIMIT_HIST
+    } else {
+        match (rec.returned.len() == rec.results.len(), rec.returned.last()) {
+            (true, Some(back)) => *back == 0,
+            _ => return format!("other:{}-creates-measured", rec.returned.len()),
+        }
+    };
+    // the target as the journal had it when the creation in question reached it
+    let db_info = if hist == "hsonly" { None } else { pre.info() };
+    let base = db_info.unwrap_or(AccountInfo { code: None, ..Default::default() });
+    // (balance, nonce, code hash, created, selfdestructed, touched)
+    let expect = if !success {
+        (base.balance, base.nonce, base.code_hash, false, false, false)
+    } else {
+        match hist {
+            "funded" => (base.balance + U256::from(1), base.nonce, base.code_hash, false, false, true),
+            "created" => (base.balance + U256::from(1), 1, keccak256(&runtime), true, false, true),
+            "destroyed" => (U256::ZERO, 1, keccak256(&runtime), true, true, true),
+            _ => (base.balance, base.nonce, base.code_hash, false, false, false),
+        }
+    };
+    let changed = match rs.state.get(&target) {
+        None => false,
+        Some(acc) => {
+            (acc.info.balance, acc.info.nonce, acc.info.code_hash, acc.is_created(), acc.is_selfdestructed(), acc.is_touched())
+                != expect
+                || acc
+                    .storage
+                    .get(&U256::from(SLOT))
+                    .map(|s| s.present_value != if pre.storage { U256::from(1) } else { U256::ZERO })
+                    .unwrap_or(false)
+        }
+    };
+    format!("{} allgas={} changed={}", class, b01(allgas), b01(changed))
+}
+
+fn run_hist_layer(layer: &str, kind: &str, hist: &str, spec: SpecId, pre: Pre) -> String {
+    let target = hist_target(kind, hist);
+    let info = if hist == "hsonly" { None } else { pre.info() };
+    let mut m = MapDb::default();
+    for (a, i) in hist_accounts(kind, hist) {
+        if let Some(c) = &i.code {
+            m.codes.insert(i.code_hash, c.clone());
+        }
+        m.accts.insert(a, i);
+    }
+    if let Some(i) = &info {
+        if let Some(c) = &i.code {
+            m.codes.insert(i.code_hash, c.clone());
+        }
+        m.accts.insert(target, i.clone());
+    }
+    if pre.storage {
+        m.slots.insert((target, U256::from(SLOT)), U256::from(1));
+    }
+    match layer {
+        "direct" => run_hist(m, kind, hist, spec, pre),
+        "wrapref" => run_hist(WrapDatabaseRef(m), kind, hist, spec, pre),
+        "box" => run_hist(Box::new(m), kind, hist, spec, pre),
+        "mutref" => {
+            let mut m = m;
+            run_hist(&mut m, kind, hist, spec, pre)
+        }
+        "components" => run_hist(DatabaseComponents { state: m.clone(), block_hash: m }, kind, hist, spec, pre),
+        "cache" => run_hist(CacheDB::new(m), kind, hist, spec, pre),
+        "state" => run_hist(revm::db::State::builder().with_database(m).build(), kind, hist, spec, pre),
+        "statecache" => run_hist(revm::db::State::builder().with_database(CacheDB::new(m)).build(), kind, hist, spec, pre),
+        "inserted" => {
+            let mut db = InMemoryDB::default();
+            for (a, i) in hist_accounts(kind, hist) {
+                db.insert_account_info(a, i);
+            }
+            if let Some(i) = info {
+                db.insert_account_info(target, i);
+            }
+            if pre.storage {
+                db.insert_account_storage(target, U256::from(SLOT), U256::from(1)).unwrap();
+            }
+            run_hist(db, kind, hist, spec, pre)
+        }
+        _ => "bad-op".into(),
+    }
+}
+
+fn hist_applies(kind: &str, hist: &str, pre: &Pre) -> bool {
+    match hist {
+        "created" | "destroyed" => kind == "create2",
+        "funded" => kind != "tx" && pre.balance < (U256::from(1) << 255),
+        "hsonly" => !pre.code && pre.nonce == 0 && pre.storage && pre.balance.is_zero(),
+        _ => false,
+    }
+}
+
 pub const LAYERS: &[&str] =
     &["direct", "wrapref", "box", "mutref", "components", "cache", "state", "statecache", "inserted"];
 pub const KINDS: &[&str] = &["tx", "create", "create2"];
 
 pub fn exec_line(line: &str) -> String {
     let t: Vec<&str> = line.split(' ').collect();
+    if t.len() == 10 && t[0] == "collision" && t[8] == "cold" {
+        if t[9] == "untouched" {
+            return exec_line(&t[..9].join(" "));
+        }
+        return exec_history(&t);
+    }
     if !(t.len() == 8 || t.len() == 9) || t[0] != "collision" {
         return "bad-op".into();
     }
@@ -373,6 +641,30 @@ pub fn exec_line(line: &str) -> String {
         };
         format!("{} allgas={} changed={}", r.class, b01(allgas), b01(r.changed))
     })
+}
+
+fn exec_history(t: &[&str]) -> String {
+    let kind = t[1].to_string();
+    let hist = t[9].to_string();
+    if !KINDS.contains(&kind.as_str()) || !LAYERS.contains(&t[3]) || !HISTORIES.contains(&hist.as_str()) {
+        return "bad-op".into();
+    }
+    let Some(spec) = t[2].parse::<u8>().ok().and_then(SpecId::try_from_u8) else { return "bad-op".into() };
+    if kind == "create2" && (spec as u8) < (SpecId::CONSTANTINOPLE as u8) {
+        return "bad-op".into();
+    }
+    let layer = t[3].to_string();
+    let (code, storage) = match (t[4], t[6]) {
+        ("0" | "1", "0" | "1") => (t[4] == "1", t[6] == "1"),
+        _ => return "bad-op".into(),
+    };
+    let Ok(nonce) = u64::from_str_radix(t[5], 16) else { return "bad-op".into() };
+    let Ok(balance) = U256::from_str_radix(t[7], 16) else { return "bad-op".into() };
+    let pre = Pre { code, nonce, storage, balance };
+    if !hist_applies(&kind, &hist, &pre) {
+        return "bad-op".into();
+    }
+    guarded(move || run_hist_layer(&layer, &kind, &hist, spec, pre))
 }
 
 pub fn gen(seed: u64, n: usize) -> Vec<String> {
@@ -448,6 +740,64 @@ pub fn gen(seed: u64, n: usize) -> Vec<String> {
             }
         }
     }
+    // the history dimension: what happened to the target earlier in the same transaction.
+    // created / destroyed (create2) and funded (create, create2): stacks x {absent, balance only, storage only} x every
+    // fork, and stacks x the 2x2x2 pre-states on rotating forks;
+    // hsonly: kinds x stacks x every fork
+    for hist in ["created", "destroyed", "funded"] {
+        for kind in ["create", "create2"] {
+            if hist != "funded" && kind != "create2" {
+                continue;
+            }
+            for layer in LAYERS {
+                for s in &specs {
+                    let s = *s as u8;
+                    if kind == "create2" && s < SpecId::CONSTANTINOPLE as u8 {
+                        continue;
+                    }
+                    // absent from the database (loaded as not existing), and present with a balance only
+                    v.push(format!("collision {kind} {s} {layer} 0 0 0 0 cold {hist}"));
+                    v.push(format!("collision {kind} {s} {layer} 0 0 0 5 cold {hist}"));
+                    // storage only: the earlier creation succeeds behind the layers that drop has_storage
+                    v.push(format!("collision {kind} {s} {layer} 0 0 1 0 cold {hist}"));
+                }
+                for bits in 0..8u8 {
+                    loop {
+                        let s = specs[i % specs.len()] as u8;
+                        i += 1;
+                        if kind != "create2" || s >= SpecId::CONSTANTINOPLE as u8 {
+                            v.push(format!(
+                                "collision {kind} {s} {layer} {} {} {} 0 cold {hist}",
+                                bits & 1,
+                                (bits >> 1) & 1,
+                                (bits >> 2) & 1
+                            ));
+                            break;
+                        }
+                    }
+                }
+            }
+        }
+    }
+    for kind in KINDS {
+        for layer in LAYERS {
+            for s in &specs {
+                let s = *s as u8;
+                if *kind != "create2" || s >= SpecId::CONSTANTINOPLE as u8 {
+                    v.push(format!("collision {kind} {s} {layer} 0 0 1 0 cold hsonly"));
+                }
+            }
+        }
+    }
+    for _ in 0..n / 2 {
+        let hist = *rng.pick(&["created", "destroyed", "funded", "funded", "untouched"]);
+        let kind = if hist == "created" || hist == "destroyed" { "create2" } else { *rng.pick(&["create", "create2"]) };
+        let layer = *rng.pick(LAYERS);
+        let s = *rng.pick(&specs) as u8;
+        let nonce = match rng.below(4) { 0 | 1 => 0, 2 => 1, _ => u64::MAX };
+        let bal = match rng.below(3) { 0 => U256::ZERO, 1 => U256::from(rng.below(100)), _ => U256::MAX - U256::from(rng.below(3)) };
+        v.push(format!("collision {kind} {s} {layer} {} {:x} {} {} cold {hist}", rng.below(2), nonce, rng.below(2), hx(bal)));
+    }
     // random
     for _ in 0..n {
         let kind = *rng.pick(KINDS);
@@ -471,6 +821,10 @@ pub fn gen(seed: u64, n: usize) -> Vec<String> {
     v.push("collision create 17 direct 0 0 1 0 retry".into());
     v.push("collision create2 17 direct 0 0 1 0 lukewarm".into());
     v.push("collision create2 17 direct 0 0 1 0 cold extra".into());
+    v.push("collision create 17 direct 0 0 0 0 cold created".into());
+    v.push("collision tx 17 direct 0 0 0 0 cold funded".into());
+    v.push("collision create2 17 direct 0 1 1 0 cold hsonly".into());
+    v.push("collision create2 17 direct 0 0 0 0 balance created".into());
     v
 }
 
@@ -479,7 +833,8 @@ pub fn run(seed: u64, n: usize, replay: Option<Vec<String>>, out: &mut Out) {
     for l in lines {
         let r = exec_line(&l);
         let t: Vec<&str> = l.split(' ').collect();
-        if t.len() == 8 || t.len() == 9 {
+        if (8..=10).contains(&t.len()) {
+            out.count(&format!("history:{}", t.get(9).unwrap_or(&"untouched")));
             out.count(&format!("warmth:{}", t.get(8).unwrap_or(&"cold")));
             out.count(&format!("kind:{}", t[1]));
             out.count(&format!("layer:{}", t[3]));
